@@ -39,7 +39,7 @@ RULE = ('dataset = 1..4 feature stores (kind in keypoints/descriptors/global_fea
         'tarfile.add of the really written files (or TarInfo) with mtimes recent / 0 / past / future / mixed and shuffled '
         'mode, uid, pax records, some files being hard links / symlinks of others (LNKTYPE / SYMTYPE members) (plain or '
         '"./" spelling, directory members, GNU or PAX format, shuffled when no duplicates), optional stale loose files, '
-        'optional API appends (mostly superseding packed names), handlers passed or not, listing through kapture_from_dir (0, 1 or n recorded images) or *_from_dir with image set None / empty / one / subset; reads = own '
+        'optional API appends (mostly superseding packed names), handlers passed or not, listing through kapture_from_dir (0, 1 or n recorded images) or *_from_dir with image set None / empty / one / subset, matches optionally restricted by a pairs file (both name orders, repeats, strangers); reads = own '
         'dtype/dsize, wrong dsize, wrong dtype, missing image, a few files with a trailing partial element. '
         'append = 1..8 add_array_to_tar calls with repeated names and odd spellings on no / empty / populated archive, '
         'through TarHandler or get_all_tar_handlers(mode a)+image_*_to_file, 1 or 2 sessions, reader after every append. '
@@ -348,7 +348,24 @@ def _gen_dataset(rng):
             direct = [rng.choice(pool)]
         else:
             direct = [x for x in pool if rng.random() < 0.6] + ['never/seen.jpg']
-    return {'kind': 'dataset', 'images': images, 'stores': stores,
+    # a pairs file restricting the load of the matches: lines in either order of the two names, repeated lines, pairs
+    # that are not stored, images nobody knows, with and without a score
+    pairsfile = None
+    mstores = [st for st in stores if st['fkind'] == 'Matches']
+    if mstores and rng.random() < 0.6:
+        stored = [w['key'] for st in mstores for w in st['writes'] + st['appends']] + [l[0] for st in mstores for l in st['links']]
+        pool = images + unknown + ['never/seen.jpg']
+        pairsfile = []
+        for key in stored:
+            if rng.random() < 0.75:
+                q, m = key if rng.random() < 0.5 else key[::-1]
+                pairsfile.append([q, m, rng.choice(['0.9', '1', '', '0.25'])])
+        for _ in range(rng.randint(0, 3)):
+            pairsfile.append([rng.choice(pool), rng.choice(pool), rng.choice(['0.5', ''])])
+        if pairsfile and rng.random() < 0.5:
+            pairsfile.append(list(rng.choice(pairsfile)))
+        rng.shuffle(pairsfile)
+    return {'kind': 'dataset', 'images': images, 'stores': stores, 'pairsfile': pairsfile,
             'handlers': rng.random() < 0.85, 'use_known': use_known, 'direct_known': direct}
 
 
@@ -592,8 +609,8 @@ def _make_link(root, st, K, link):
     return dst
 
 
-def _observe(root, case, K, handlers):
-    """Load the dataset and read arrays the way a user does."""
+def _observe(root, case, K, handlers, pairsfile=None):
+    """Load the dataset and read arrays the way a user does (pairsfile: path of a pairs file restricting the matches)."""
     import numpy as np
     import kapture.io.csv as kcsv
     obs = []
@@ -603,7 +620,7 @@ def _observe(root, case, K, handlers):
             th = kcsv.get_all_tar_handlers(root)
         kd = None
         if case['use_known']:
-            kd = kcsv.kapture_from_dir(root, tar_handlers=th)
+            kd = kcsv.kapture_from_dir(root, matches_pairs_file_path=pairsfile, tar_handlers=th)
         for st in case['stores']:
             k = K[st['fkind']]
             o = {'listing': None, 'reads': [], 'error': None}
@@ -613,7 +630,10 @@ def _observe(root, case, K, handlers):
                     feats = part[st['ftype']]
                 else:
                     dk = case.get('direct_known')
-                    feats = k['from_dir'](st['ftype'], root, None if dk is None else set(dk), th)
+                    if st['fkind'] == 'Matches':
+                        feats = kcsv.matches_from_dir(st['ftype'], root, None if dk is None else set(dk), pairsfile, th)
+                    else:
+                        feats = k['from_dir'](st['ftype'], root, None if dk is None else set(dk), th)
                 if st['fkind'] == 'Matches':
                     o['listing'] = sorted([a, b] for a, b in feats)
                 else:
@@ -707,14 +727,26 @@ def _run_dataset(case, ctx):
                             k['to_file'](p, _arr(bytes.fromhex(a['hex']), st['dtype'], st['dsize']))
             except Exception as e:
                 append_error = f'{type(e).__name__}: {e}'[:200]
-        obs_p = _observe(P, case, K, case['handlers'])
-        obs_d = _observe(D, case, K, True)
+        pf = None
+        if case.get('pairsfile') is not None:
+            # "name1, name2, score" lines, the layout of the pairs files used by kapture_export_colmap & co
+            pf = os.path.join(base, 'pairs.txt')
+            with open(pf, 'w') as f:
+                f.write('# query_image, map_image, score\n')
+                for i, (q, m, sc) in enumerate(case['pairsfile']):
+                    f.write(f'{q}, {m}, {sc}\n' if i % 3 else f'{q},{m},{sc}\n')
+                    if i == 1:
+                        f.write('\n')
+        obs_p = _observe(P, case, K, case['handlers'], pf)
+        obs_d = _observe(D, case, K, True, pf)
         # what path_secure does to every name the model will normalise
         norm = {}
         for st in case['stores']:
             names = [_fname(K, st['fkind'], r[0]) for r in st['reads']]
             names += [_fname(K, st['fkind'], w['key']) for w in st['writes'] + st['appends'] + st['stale']]
             names += [_fname(K, st['fkind'], l[0]) for l in st['links']]
+            if st['fkind'] == 'Matches' and case.get('pairsfile') is not None:
+                names += [_fname(K, 'Matches', [q, m] if q < m else [m, q]) for q, m, _ in case['pairsfile']]
             if st['tar']:
                 for n, _, pay in phys[case['stores'].index(st)]:
                     names += [n] + [v for k, v in pay.items() if k != 'b']
@@ -1013,6 +1045,11 @@ def _oracle_dataset(case, obs):
             seen.add(tk)
             if known is not None and not (set(key) <= known if kind == 'Matches' else key in known):
                 continue
+            if kind == 'Matches' and case.get('pairsfile') is not None:
+                # the file denotes a set of unordered pairs; a stored pair is loaded iff it is in (smaller, larger) name
+                # order and belongs to that set
+                if not (key[0] <= key[1] and any({q, m} == set(key) for q, m, _ in case['pairsfile'])):
+                    continue
             exp.append(key)
         exp = sorted(exp)
         if op['listing'] != od['listing']:
@@ -1122,10 +1159,13 @@ def _encode_store(case, st, o, K, norm, packed, phys=None):
     else:
         images, pairs = kv.clist(kv.cstr(i) for i in o['listing']), '[]'
     reads = kv.clist(kv.cpair(kv.cstr(_fname(K, kind, key)), kv.cn(DTYPES[dt]), kv.cn(ds)) for key, dt, ds in st['reads'])
+    pfile = 'None'
+    if kind == 'Matches' and case.get('pairsfile') is not None:
+        pfile = kv.copt(kv.clist(kv.cpair(kv.cstr(q), kv.cstr(m)) for q, m, _ in case['pairsfile']))
     return ('CStore {| sc_norm := %s; sc_kind := %s; sc_files := %s; sc_tar := %s; sc_appends := %s; sc_handlers := %s; '
-            'sc_known := %s; sc_reads := %s; so_images := %s; so_pairs := %s; so_reads := %s |}' % (
+            'sc_known := %s; sc_pairsfile := %s; sc_reads := %s; so_images := %s; so_pairs := %s; so_reads := %s |}' % (
                 norm, kv.cstr(kind), _clog(files.items()), kv.copt(_cmembers(tar)) if tar is not None else 'None',
-                _clog(appends), kv.cbool(handlers), known, reads, images, pairs, kv.clist(_crd(r) for r in o['reads'])))
+                _clog(appends), kv.cbool(handlers), known, pfile, reads, images, pairs, kv.clist(_crd(r) for r in o['reads'])))
 
 
 def _copened(seen):
@@ -1142,7 +1182,7 @@ def encode(case, obs):
         for side in ('packed', 'dir'):
             if 'load_error' in obs[side] or obs.get('append_error'):
                 return '[CStore {| sc_norm := []; sc_kind := "load failed"%string; sc_files := []; sc_tar := None; sc_appends := []; ' \
-                       'sc_handlers := true; sc_known := None; sc_reads := []; so_images := ["x"%string]; so_pairs := []; so_reads := [] |}]'
+                       'sc_handlers := true; sc_known := None; sc_pairsfile := None; sc_reads := []; so_images := ["x"%string]; so_pairs := []; so_reads := [] |}]'
         for st, op, od in zip(case['stores'], obs['packed']['stores'], obs['dir']['stores']):
             out.append(_encode_store(case, st, op, K, norm, True, obs['phys'][case['stores'].index(st)]))
             if st['tar'] is not None:
@@ -1180,6 +1220,7 @@ def classify(case, obs):
         flags = [f for f, on in (('overwrites', dups), ('appends', any(st['appends'] for st in case['stores'])),
                                  ('stale', any(st['stale'] for st in case['stores'])),
                                  ('links', any(st.get('links') for st in case['stores'])),
+                                 ('pairsfile', case.get('pairsfile') is not None),
                                  ('malformed', any(st['malformed'] for st in case['stores']))) if on]
         return 'dataset/stores=%d/tars=%d/%s/%s%s' % (
             len(case['stores']), tars, 'handlers' if case['handlers'] else 'nohandlers', how,
@@ -1193,7 +1234,7 @@ def classify(case, obs):
 def describe(case, obs):
     if case['kind'] == 'dataset':
         return {'kind': 'dataset', 'images': case['images'], 'handlers': case['handlers'], 'use_known': case['use_known'],
-                'direct_known': case.get('direct_known'),
+                'direct_known': case.get('direct_known'), 'pairsfile': case.get('pairsfile'),
                 'stores': [{'kind': st['fkind'], 'type': st['ftype'], 'dtype': st['dtype'], 'dsize': st['dsize'],
                             'writes': [w['key'] for w in st['writes']], 'tar': st['tar'] and {k: v for k, v in st['tar'].items() if k != 'members'},
                             'appends': [a['key'] for a in st['appends']], 'stale': [s['key'] for s in st['stale']],
@@ -1230,6 +1271,10 @@ def shrink(case):
                 c = dict(case)
                 c['stores'] = case['stores'][:i] + case['stores'][i + 1:]
                 yield c
+        for i in range(len(case.get('pairsfile') or [])):
+            c = dict(case)
+            c['pairsfile'] = case['pairsfile'][:i] + case['pairsfile'][i + 1:]
+            yield c
         for si, st in enumerate(case['stores']):
             for field in ('appends', 'stale', 'reads'):
                 for i in range(len(st[field])):
